@@ -320,7 +320,7 @@ def run(ctx):
                        "malformed interiors (every inner truncation, addr_len, data_len, zip header/body faults), stalled "
                        "clients; canary encode/decode after every batch; sanitizer report read at shutdown. "
                        "non-trivial = distinct (class, bytes)")
-    ok = vlib.prove(ctx, ["Properties_C08.v"], facts=["cred", "base64", "msg"])
+    ok = vlib.prove(ctx, ["Properties_C08.v"], facts=["cred", "base64", "msg", "msgtables"])
     ctx.log("proofs:", "ok" if ok else "BROKEN: " + getattr(ctx, "broken_obligation", "?"))
     live_phase(ctx)
     if not ok and not ctx.violations:
